@@ -207,6 +207,7 @@ type env struct {
 	behs     map[string]beh
 	tryTO    time.Duration
 	ctxTO    time.Duration // deadline of the context handed to Sign (0 = one minute, as cmd/gensign)
+	nsigners int
 }
 
 // oddNames: endpoint strings behind which no CA answers - an IPv6 literal without brackets (what "%s:%d" makes of it
@@ -225,10 +226,16 @@ func (e *env) newSigner(eps []int, retries uint) (*crypki.Signer, error) {
 	for i, ep := range eps {
 		names[i] = epName(ep)
 	}
-	return crypki.NewSigner(crypki.SignerConfig{
+	conf := crypki.SignerConfig{
 		TLSClientKeyFile: e.keyFile, TLSClientCertFile: e.certFile, TLSCACertFiles: []string{e.caFile},
 		CrypkiEndpoints: names, CrypkiPort: uint(e.farm.Port), Retries: retries, PerTryTimeout: e.tryTO,
-	})
+	}
+	// every other signer is built the way the application builds it: from the signer section of a configuration file
+	e.nsigners++
+	if e.nsigners%2 == 0 && len(names) > 0 {
+		return casim.SignerViaConfig(e.dir, conf)
+	}
+	return crypki.NewSigner(conf)
 }
 
 func genRequest(r *rand.Rand) *proto.SSHCertificateSigningRequest {
